@@ -93,7 +93,11 @@ class Func(NamedTuple):
         definitions = get_definitions(tree=tree)
         for expr in cls._get_funcs_astroid(tree):
             # make signature
-            code = f'def f({expr.args.as_string()}):0'
+            try:
+                code = f'def f({expr.args.as_string()}):0'
+            except ValueError:
+                # a default value that cannot be rendered (too many digits)
+                continue
             func_args = ast.parse(code).body[0].args  # type: ignore
 
             # collect contracts
